@@ -23,8 +23,15 @@ Declared == {"plus1", "2^16", "2^31", "2^32", "2^40", "2^63", "max"}      \* rew
 \* a byte-string / list member re-encoded as an array declaring far more elements than follow, with enough
 \* well-formed elements present to run past any cap a decoder puts on its initial capacity
 BigSeq == { p \o ":" \o d : p \in {"1025", "4097", "65537"}, d \in {"2^28", "2^32", "2^40", "max"} }
+\* one list of the message grown to many pairwise different entries (descriptors with distinct ids, enumeration
+\* lists with distinct strings): decoding must stay proportional to the input
+ListDecoders == {"mcReq", "gaReq", "gaResp", "info", "jsonCreate", "jsonGet", "jsonCreated"}
+Many == { w \o ":" \o n : w \in {"desc", "enum"}, n \in {"2000", "100000"} }
 Cases ==
     [dec : Decs, mut : Generic, arg : {"none"}] \cup
+    [dec : ListDecoders, mut : {"manyentries"}, arg : Many] \cup
+    \* a string member resized consistently (well-formed CBOR, unexpected member length: key coordinates, hashes, ids)
+    [dec : CborDecoders \cup {"authdata"}, mut : {"resize"}, arg : {"zero", "minus1", "plus1", "double"}] \cup
     [dec : CborDecoders, mut : {"bigseq"}, arg : BigSeq] \cup
     [dec : CborDecoders \cup {"authdata"}, mut : {"lenfield"}, arg : Declared] \cup
     [dec : CborDecoders \cup JsonDecoders \cup {"authdata"}, mut : {"deepnest"}, arg : {"64", "512", "100000"}] \cup
@@ -40,6 +47,7 @@ Judge(e) ==
     /\ e.maxalloc \div 256 <= 16384 + e.len              \* maxalloc <= MemBound(len)
     /\ e.peak \div 1024 <= 16384 + e.len                 \* peak <= 4 * MemBound(len)
     /\ (e.len <= 200000 => e.cpums <= 2000)
+    /\ e.cpums <= 2000 + e.len \div 1000               \* and, whatever the size, a microsecond per byte at most
 
 Rec == IF "TRACE" \in DOMAIN IOEnv THEN ndJsonDeserialize(IOEnv.TRACE) ELSE <<>>
 VARIABLE done
